@@ -1,5 +1,88 @@
-// Package simrt is linked into the instrumented scratch copy of pegnetd.
+// Package simrt is linked into the instrumented scratch copy of pegnetd. It
+// decides what the Go language leaves open: map iteration order and the
+// relative order of equal elements in an unstable sort.
 package simrt
 
-// placeholder
-var X int
+import (
+	"fmt"
+	"reflect"
+	"sort"
+)
+
+// Mode: 0 canonical ascending key order, 1 descending, 2 seeded permutation.
+var (
+	Mode  int
+	Seed  uint64
+	Calls = map[string]int{} // calls per site (coverage)
+	n     uint64
+)
+
+// Reset sets the order source for the next simulated daemon run.
+func Reset(mode int, seed uint64) {
+	Mode, Seed, n = mode, seed, 0
+}
+
+func next() uint64 {
+	// splitmix64 over (Seed, call counter): the schedule depends only on the seed
+	n++
+	z := Seed + n*0x9e3779b97f4a7c15
+	z = (z ^ (z >> 30)) * 0xbf58476d1ce4e5b9
+	z = (z ^ (z >> 27)) * 0x94d049bb133111eb
+	return z ^ (z >> 31)
+}
+
+func keyLess(a, b reflect.Value) bool {
+	switch a.Kind() {
+	case reflect.String:
+		return a.String() < b.String()
+	case reflect.Int, reflect.Int8, reflect.Int16, reflect.Int32, reflect.Int64:
+		return a.Int() < b.Int()
+	case reflect.Uint, reflect.Uint8, reflect.Uint16, reflect.Uint32, reflect.Uint64:
+		return a.Uint() < b.Uint()
+	case reflect.Array:
+		for i := 0; i < a.Len(); i++ {
+			if keyLess(a.Index(i), b.Index(i)) {
+				return true
+			}
+			if keyLess(b.Index(i), a.Index(i)) {
+				return false
+			}
+		}
+		return false
+	}
+	return fmt.Sprint(a.Interface()) < fmt.Sprint(b.Interface())
+}
+
+// Order puts the keys of a map (given as a slice) into the order the
+// simulator chose for this run.
+func Order(keys interface{}, site string) {
+	Calls[site]++
+	v := reflect.ValueOf(keys)
+	sort.SliceStable(keys, func(i, j int) bool { return keyLess(v.Index(i), v.Index(j)) })
+	permute(keys, v.Len())
+}
+
+func permute(slice interface{}, ln int) {
+	swap := reflect.Swapper(slice)
+	switch Mode {
+	case 1:
+		for i, j := 0, ln-1; i < j; i, j = i+1, j-1 {
+			swap(i, j)
+		}
+	case 2:
+		for i := ln - 1; i > 0; i-- {
+			swap(i, int(next()%uint64(i+1)))
+		}
+	}
+}
+
+// UnstableSort behaves like sort.Slice: the result is sorted by less, and the
+// relative order of equal elements is whatever the simulator chose (any order
+// an unstable sort may legally produce is reachable, nothing else is).
+func UnstableSort(x interface{}, less func(i, j int) bool, site string) {
+	Calls[site]++
+	if Mode != 0 {
+		permute(x, reflect.ValueOf(x).Len())
+	}
+	sort.SliceStable(x, less)
+}
